@@ -1,7 +1,7 @@
 """C17 -- action outcomes are classified exactly and output is captured intact   (model M5, DESIGN §5 C17)
 
 (T) lean/DoitModel/Props/C17.lean: classify_py, py_exec, classify_cmd (+_status, _signal), cmd_exec, task_execute,
-    teardown_execute, task_values_lookup, restore_nested (+_any, restore_exec, forest_well_nested), restore_nested_live (the machine
+    teardown_execute, task_values_lookup, classification_verbosity_independent, writer_interface, restore_nested (+_any, restore_exec, forest_well_nested), restore_nested_live (the machine
     with the Writer's live copy, + forest_well_nested_live), live_rule; counterexamples
     overlap_counterexample(_min) (F-C17a, open) and pinned_kwargs_counterexample (F-C17b, fixed).
 (K) the real PythonAction / CmdAction / Task.execute of $VERIF_REPO are run on generated cases (harness/actlib.py)
@@ -34,7 +34,8 @@ META = {
                 'doit/action.py::PythonAction._prepare_kwargs', 'doit/action.py::create_action',
                 'doit/task.py::Task.execute', 'doit/task.py::Task.execute_teardown', 'doit/task.py::Stream', 'doit/task.py::IOConfig',
                 'doit/exceptions.py::BaseFail', 'doit/exceptions.py::TaskFailed', 'doit/exceptions.py::TaskError',
-                'doit/runner.py::Runner.execute_task', 'doit/runner.py::MRunner.execute_task_subprocess'],
+                'doit/runner.py::Runner.execute_task', 'doit/runner.py::MRunner.execute_task_subprocess',
+                'doit/reporter.py::JsonReporter.complete_run', 'doit/reporter.py::JsonReporter.__init__'],
     'technique': 'Lean 4 proofs over an executable model of PythonAction/CmdAction/Task.execute and of the '
                  'process-wide stdout cell (induction over well-nested step lists) + differential correspondence '
                  'against the real classes, incl. forced thread interleavings',
@@ -55,13 +56,15 @@ META = {
                   'BaseException leaves execute() unclassified, a returned TaskError instance is an error, a process '
                   'killed by a signal is `failed`.  Monitor: classification/task/capture clauses via the Lean '
                   'functions, stream identity and text equality as Python predicates.',
-    'rule': 'py: category x representative x io.capture x verbosity x writes x kwargs-raise x callable-swaps-stream; '
+    'rule': 'py: category x representative x io.capture x verbosity x writes x kwargs-raise x callable-swaps-stream x '
+            'stream methods other than write (print, flush, isatty, fileno, writelines, .buffer.write, .encoding, .errors, '
+            'reconfigure; such a case is also run at verbosity 0, 1 and 2: same outcome, shown live is captured); '
             'cmd: exit 0..255 / signal / child signal x byte chunks (non-UTF-8, no trailing newline, up to 256 KiB, '
             'interleaved) x capture True/False/None x verbosity x save_out x expansion errors; task: 1..5 mixed '
             'actions, unsuccessful action in every position; nested: random forests of executions (depth<=4) with '
             'per-action verbosity and ending; overlap: 2-3 threads, forced interleavings of start/write/end; runner: whole '
             '`doit run`s (serial / process / thread runner; independent, chained or forced-to-overlap tasks) observed '
-            'through a reporter class. '
+            'through a reporter class or through `-r json` (incl. runs aborted mid-task and an unwritable report). '
             'non-trivial = produces output or a non-ok outcome or >1 action; distinct = canonical JSON of the case',
     'assumptions': ['CmdAction decode_error=replace and encoding=utf-8 (the defaults); every buffering value',
                     'io.capture False/None is documented as "not captured": the capture clause is read for capture on',
@@ -117,8 +120,10 @@ def ret_json(ret):
     return j
 
 
-def py_req(a):
-    return {'model': 'act', 'op': 'py', 'kwargsRaise': bool(a.get('kwargs_raise')), 'ret': ret_json(a['ret'])}
+def py_req(a, capture=True):
+    # the recorders have no file descriptor: liveFd = false
+    return {'model': 'act', 'op': 'py', 'kwargsRaise': bool(a.get('kwargs_raise')), 'ret': ret_json(a['ret']),
+            'ops': [actlib.op_kind(w) for w in a.get('writes', [])], 'capture': bool(capture), 'liveFd': False}
 
 
 def cmd_req(a, cap):
@@ -132,7 +137,7 @@ def requests_for(case):
     k = case['kind']
     if k == 'py':
         cap = case.get('capture', True)
-        return [py_req(case), {'model': 'act', 'op': 'route', 'v': case.get('v'), 'kind': 'py',
+        return [py_req(case, cap), {'model': 'act', 'op': 'route', 'v': case.get('v'), 'kind': 'py',
                                'cap': cap_class(cap)}]
     if k == 'cmd':
         cap = case.get('capture', True)
@@ -140,7 +145,7 @@ def requests_for(case):
                                      'cap': cap_class(cap)}]
     if k == 'task':
         cap = case.get('capture', True)
-        acts = [py_req(a) if a['t'] == 'py' else cmd_req(a, cap) for a in case['actions']]
+        acts = [py_req(a, cap) if a['t'] == 'py' else cmd_req(a, cap) for a in case['actions']]
         return [{'model': 'act', 'op': 'task', 'actions': acts}]
     if k == 'nested':
         return [{'model': 'act', 'op': 'stream', 'forest': case['forest']},
@@ -165,6 +170,19 @@ def judge_runner(case, obs, m):
         bad.append(('impl-exception', 'K', obs['raised']))
     if obs['runtime_errors']:
         bad.append(('runtime-error', 'K', clip(obs['runtime_errors'])))
+    if case.get('reporter') == 'json':
+        # `-r json`: whatever the end of the run (report written, run aborted mid-task, report not writable) the
+        # process-wide streams are the installed objects again when DoitMain.run returns
+        cmp('cell-not-restored', 'P', obs['restored'], [True, True])
+        if case.get('abort'):
+            cmp('abort-exit-code', 'K', obs['code'], 3)
+            return bad
+        cmp('json-document', 'K', obs['json_document'], True)
+        for name in ('out', 'err'):
+            for a, spec in m['spec'].items():
+                cmp('misattributed', 'P', obs[name].get(a), spec)
+            cmp('misattributed', 'P', [k for k in obs[name] if k.startswith('foreign')], [])
+        return bad
     cmp('tasks-reported', 'K', sorted(obs['reported']), sorted(str(i) for i in range(len(case['tasks']))))
     model_restored = (m['cell'] == 'orig')
     cmp('cell-model', 'K', obs['restored'], [model_restored, model_restored])
@@ -247,8 +265,10 @@ def judge(case, obs, model):
         cmp('values', 'P', obs['values'], m['values'])
         none_ran = bool(case.get('kwargs_raise')) if k == 'py' else case.get('expand', 'ok') != 'ok'
         if k == 'py':
-            tout = ''.join(t for c, t in case.get('writes', []) if c == 'o')
-            terr = ''.join(t for c, t in case.get('writes', []) if c == 'e')
+            # the operations the model says complete and produce text (a raising operation ends the body)
+            done = list(zip(case.get('writes', []), m.get('body', {}).get('text', [])))
+            tout = ''.join(w[1] for w, txt in done if txt and w[0] == 'o')
+            terr = ''.join(w[1] for w, txt in done if txt and w[0] == 'e')
         else:
             tout, terr = actlib.expected_streams(case)
         if none_ran:
@@ -263,6 +283,17 @@ def judge(case, obs, model):
             if k == 'cmd':
                 cmp('inherited-' + name, 'K', obs[fd], text if r['inherited'] else '')
         cmp('cell-not-restored', 'P', obs['restored'], [True, True])
+        if obs.get('by_v'):
+            outs = sorted(set(o['outcome'] for o in obs['by_v'].values()))
+            if len(outs) > 1:
+                bad.append(('verbosity-dependent-outcome', 'P',
+                            'outcome by verbosity %s' % {v: o['outcome'] for v, o in sorted(obs['by_v'].items())}))
+            if capture_on:
+                for v, o in sorted(obs['by_v'].items()):
+                    for live, cap in (('O', 'out'), ('E', 'err')):
+                        if o[live] not in ('', o[cap]):
+                            bad.append(('shown-not-captured', 'P', 'verbosity %s: shown live %s, captured %s'
+                                        % (v, clip(o[live]), clip(o[cap]))))
     elif k == 'task':
         m = model[0]
         if case.get('teardown'):
@@ -355,7 +386,8 @@ def shrink_candidates(case):
             c = copy.deepcopy(case)
             del c['writes'][i]
             yield c
-        for i, (ch, t) in enumerate(ws):
+        for i, w in enumerate(ws):
+            t = w[1]
             if len(t) > 1:
                 c = copy.deepcopy(case)
                 c['writes'][i][1] = t[:max(1, len(t) // 2)]
@@ -457,8 +489,9 @@ def describe(case):
             case.get('exit'), case.get('capture', True), case.get('v'), case.get('save_out'),
             len(case.get('chunks', [])), case.get('expand', 'ok'), case.get('buffering', 0))
     if k == 'runner':
-        return 'runner %s n=%s %s v=%s tasks=%s' % (
-            case['par'], case.get('n'), case['mode'], case.get('v'),
+        return 'runner %s%s n=%s %s v=%s tasks=%s' % (
+            case['par'], (' -r json abort=%s' % case.get('abort')) if case.get('reporter') == 'json' else '',
+            case.get('n'), case['mode'], case.get('v'),
             [[a.get('end', 'true') for a in t['actions']] for t in case['tasks']])
     if k == 'task':
         return ('teardown ' if case.get('teardown') else 'task ') + ','.join(a['ret']['cat'] if a['t'] == 'py' else 'cmd%s' % a.get('exit', ['', 0])[1]
@@ -537,6 +570,9 @@ def count_case(st, case):
         if case.get('repeat', 1) > 1:
             st.count('py.repeat')
         st.count('py.writes:%s' % min(4, len(case.get('writes', []))))
+        for w in case.get('writes', []):
+            if actlib.op_kind(w) != 'write':
+                st.count('py.op:' + actlib.op_kind(w))
     elif k == 'cmd':
         ex = case.get('exit', ['status', 0])
         rc = actlib.expected_rc(case)
@@ -562,6 +598,8 @@ def count_case(st, case):
         st.count('nested.depth:%d' % forest_depth(case['forest']))
     elif k == 'runner':
         st.count('runner.%s.%s' % (case['par'], case['mode']))
+        if case.get('reporter') == 'json':
+            st.count('runner.json.abort:%s' % case.get('abort'))
     elif k == 'overlap':
         st.count('overlap.threads:%d' % len(case['threads']))
         st.count('overlap.overlapping' if actlib.overlapping_pairs(case) else 'overlap.disjoint')
@@ -665,6 +703,16 @@ def gen_ret_data(rng):
 
 
 def gen_writes(rng):
+    ws = gen_plain_writes(rng)
+    if rng.random() < 0.3:
+        # stream methods other than write(): the tee Writer must behave the same at every verbosity
+        for _ in range(rng.randint(1, 2)):
+            kind = rng.choice(actlib.OP_KINDS[1:])
+            ws.insert(rng.randint(0, len(ws)), [rng.choice('oe'), rng.choice(['M\n', 'm', 'ç\n']), kind])
+    return ws
+
+
+def gen_plain_writes(rng):
     return [[rng.choice('oe'), rng.choice(TEXTS if rng.random() < 0.95 else PY_ONLY_TEXTS)]
             for _ in range(rng.randint(0, 5))]
 
@@ -751,8 +799,12 @@ def gen_runner(rng):
             for a in t['actions']:
                 if a['end'] in ('false', 'raise'):
                     a['end'] = 'true'
-    return {'kind': 'runner', 'par': par, 'n': rng.choice([2, 3]) if par != 'serial' else 1, 'mode': mode,
-            'v': rng.choice([0, 0, 1, 2]), 'tasks': tasks}
+    c = {'kind': 'runner', 'par': par, 'n': rng.choice([2, 3]) if par != 'serial' else 1, 'mode': mode,
+         'v': rng.choice([0, 0, 1, 2]), 'tasks': tasks}
+    if rng.random() < 0.35:
+        c['reporter'] = 'json'
+        c['abort'] = rng.choice([None, None, 'kwargs', 'interrupt', 'devfull']) if par == 'serial' else None
+    return c
 
 
 def gen_task_action(rng, bad=None):
@@ -888,6 +940,16 @@ def exhaustive_py():
             out.append({'kind': 'py', 'ret': ret, 'writes': writes, 'v': v, 'capture': True, 'direct': True,
                         'notask': True})
             out.append({'kind': 'py', 'ret': ret, 'writes': writes, 'v': v, 'capture': True, 'repeat': 2})
+    for kind in actlib.OP_KINDS[1:]:
+        for chan in 'oe':
+            for cap in (True, False):
+                for v in (0, 1, 2):
+                    for direct in (False, True):
+                        c = {'kind': 'py', 'ret': {'cat': 'str', 's': 'r'}, 'v': v, 'capture': cap,
+                             'writes': [['o', 'a\n'], ['e', 'b'], [chan, 'X\n', kind], ['o', 'after'], ['e', 'z']]}
+                        if direct:
+                            c['direct'] = True
+                        out.append(c)
     for kw in actlib.KW_REPS:
         for cap in CAPTURES:
             for v in VERBS:
@@ -1123,6 +1185,16 @@ def run(ctx):
 
 
 FIXED_RUNNER = [
+    {'kind': 'runner', 'par': 'serial', 'n': 1, 'mode': 'independent', 'v': 0, 'reporter': 'json', 'abort': None,
+     'tasks': [{'actions': [{'writes': 2, 'end': 'true'}, {'writes': 1, 'end': 'str'}]}, {'actions': [{'writes': 1, 'end': 'false'}]}]},
+    {'kind': 'runner', 'par': 'serial', 'n': 1, 'mode': 'independent', 'v': 0, 'reporter': 'json', 'abort': 'kwargs',
+     'tasks': [{'actions': [{'writes': 1, 'end': 'true'}]}]},
+    {'kind': 'runner', 'par': 'serial', 'n': 1, 'mode': 'independent', 'v': 2, 'reporter': 'json', 'abort': 'interrupt',
+     'tasks': [{'actions': [{'writes': 1, 'end': 'true'}]}]},
+    {'kind': 'runner', 'par': 'serial', 'n': 1, 'mode': 'independent', 'v': 0, 'reporter': 'json', 'abort': 'devfull',
+     'tasks': [{'actions': [{'writes': 1, 'end': 'true'}]}]},
+    {'kind': 'runner', 'par': 'process', 'n': 2, 'mode': 'independent', 'v': 1, 'reporter': 'json', 'abort': None,
+     'tasks': [{'actions': [{'writes': 2, 'end': 'true'}]}, {'actions': [{'writes': 1, 'end': 'str'}]}]},
     {'kind': 'runner', 'par': 'thread', 'n': 2, 'mode': 'forced', 'v': 0,
      'tasks': [{'actions': [{'writes': 1, 'end': 'true'}]},
                {'actions': [{'writes': 1, 'end': 'true'}, {'writes': 1, 'end': 'true'}]}]},
